@@ -139,7 +139,10 @@ func forType(t reflect.Type, seen map[reflect.Type]bool, ignore bool, schemas ma
 			if cloned.Type != "" {
 				cloned.Types = []string{"null", cloned.Type}
 				cloned.Type = ""
-			} else if !slices.Contains(cloned.Types, "null") {
+			} else if len(cloned.Types) > 0 && !slices.Contains(cloned.Types, "null") {
+				// If the schema does not restrict the type at all, null is already
+				// allowed as far as the type goes; a list with only "null" would
+				// forbid everything else.
 				cloned.Types = append([]string{"null"}, cloned.Types...)
 			}
 		}
